@@ -36,12 +36,14 @@ theorem c16_on_source (wf : Wf) (hac : acyclic wf) (ts : List Nat) (hts : ∀ t 
 
 
 
+
 -- BEGIN PINS (written by bin/mkpins; do not edit by hand)
 /-- the Go functions this property's model and obligations were written against have exactly the
 pinned skeletons (SHA-256 prefix of the atom list) -/
 theorem pinned_skeletons_c16 :
     pinsOk
-    [("Scipipe.BaseProcess_Ready", "71e6e586b2c2ee4c"),
+    [("Scipipe.#decls", "7633eb8a74616d59"),
+     ("Scipipe.BaseProcess_Ready", "71e6e586b2c2ee4c"),
      ("Scipipe.InParamPort_FromStr", "82f932a5d19fe28f"),
      ("Scipipe.InParamPort_Ready", "338b778c4d30bafe"),
      ("Scipipe.InParamPort_SetReady", "1d81cf7a998ea142"),
